@@ -27,7 +27,7 @@ def gen_cases(tier, seed):
     out = []
     for i in range(n):
         s = env.seed_for(seed, ID, tier, i)
-        r = random.Random(s)
+        r = random.Random(env.seed_for(s, "descriptor"))  # independent of the stream run_case derives from the same seed
         ncalls = r.randint(2, maxcalls) if r.random() < 0.85 else r.randint(2, 8)
         W = plainrun.pick_W(r, ncalls)
         faults = {}
